@@ -268,7 +268,9 @@ func (p *Pipeline) reload(previousGeneration *Pipeline) {
 		if previousGeneration != nil {
 			prev = previousGeneration.getFilter(spec.Name())
 		}
-		if prev == nil {
+		// A filter of another kind under the same name is not a previous
+		// generation of this filter: Inherit would receive a foreign type.
+		if prev == nil || prev.Kind() != filter.Kind() {
 			filter.Init()
 		} else {
 			filter.Inherit(prev)
